@@ -1,7 +1,7 @@
 (* C13 — property theorems only.  Each is closed by `exact <lemma>` and followed by
    Print Assumptions; the check re-compiles this file on every run. *)
 From Coq Require Import List NArith ZArith Bool.
-From MW Require Import Common.Str C13.Val C13.Gen_classes C13.Model C13.Wf C13.Proofs C13.ProofsRT C13.ProofsId C13.ProofsCanon.
+From MW Require Import Common.Str C13.Val C13.Gen_classes C13.Model C13.Wf C13.Proofs C13.ProofsRT C13.ProofsId C13.ProofsCanon C13.ProofsApi.
 Import ListNotations.
 
 (* Values: VObj c f = instance of metabook class c with attribute map f (the `type` entry is c itself);
@@ -104,6 +104,47 @@ Theorem C13_wfb_sound : forall v, wfb v = true -> wf v.
 Proof. exact wfb_spec. Qed.
 Print Assumptions C13_wfb_sound.
 
+(* ---------------------------------------------------------------------------------------------------------
+   The API keeps metabooks inside the theorems' domain.  kw_ok kw: the keyword values are wf and no keyword is
+   called `type` or `self`.  A model value containing VErr = the real call raised. *)
+
+(* Collection.append_article: the call raises, or the result is wf again *)
+Theorem C13_append_article_wf : forall title dt kw coll,
+  wf coll -> kw_ok kw ->
+  has_err (append_article title dt kw coll) = true \/ wf (append_article title dt kw coll).
+Proof. exact append_article_wf. Qed.
+Print Assumptions C13_append_article_wf.
+
+(* constructors of every known class, items.append, setattr *)
+Theorem C13_constructors_wf :
+  (forall low kw, kw_ok kw -> new_obj low kw = VErr \/ wf (new_obj low kw)) /\
+  (forall x v, wf v -> wf x -> append_item x v = VErr \/ wf (append_item x v)) /\
+  (forall k x v, wf v -> wf x -> str_eqb k_type k = false -> str_eqb k_self k = false ->
+                 set_field k x v = VErr \/ wf (set_field k x v)).
+Proof. exact constructors_wf_full. Qed.
+Print Assumptions C13_constructors_wf.
+
+(* Collection.walk / get_articles return wf objects only *)
+Theorem C13_walk_wf : forall coll, wf coll -> Forall wf (walk_items coll).
+Proof. exact walk_items_wf. Qed.
+Print Assumptions C13_walk_wf.
+
+(* every collection built by ANY sequence of append_article / items.append(Class(..)) / setattr calls that did not
+   raise, starting from Collection(kw0), is wf -- so the round trip, the fixed point (and with them the id theorems)
+   hold for it, and what walk() returns is wf *)
+Theorem C13_api_built_wf : forall kw0 ops m,
+  kw_ok kw0 -> Forall bop_ok ops ->
+  build_from (new_obj (lower k_Collection) kw0) ops = Some m -> wf m.
+Proof. exact api_built_wf. Qed.
+Print Assumptions C13_api_built_wf.
+
+Theorem C13_api_built_roundtrip : forall kw0 ops m,
+  kw_ok kw0 -> Forall bop_ok ops ->
+  build_from (new_obj (lower k_Collection) kw0) ops = Some m ->
+  nf (of_json (to_json m)) = nf m /\ to_json (of_json (to_json m)) = to_json m /\ Forall wf (walk_items m).
+Proof. exact api_built_roundtrip. Qed.
+Print Assumptions C13_api_built_roundtrip.
+
 (* Non-vacuity.  (1) the repr hypothesis has an instance.  (2) Collections built through the API are wf, and
    differ in nf when an article title / its revision / the order / a chapter title differs. *)
 Example C13_example_repr : exists repr : option str -> str, forall a b x y, repr a ++ x = repr b ++ y -> a = b.
@@ -127,3 +168,14 @@ Proof.
   cbv zeta. repeat split; try (vm_compute; reflexivity); intro H; vm_compute in H; discriminate H.
 Qed.
 Print Assumptions C13_example_built.
+
+(* (3) op sequences that do not raise exist: a chapter, two articles (one with revision 0), a falsy title *)
+Example C13_example_api :
+  let ops := [BAddItem (lower k_Chapter) [(k_title, VStr [67]%N)];
+              BAppend [65]%N None [([114;101;118;105;115;105;111;110]%N, VInt 0)];
+              BAppend [66]%N (Some [68]%N) [];
+              BSet k_title (VStr [])] in
+  Forall bop_ok ops /\
+  exists m, build_from (new_obj (lower k_Collection) []) ops = Some m /\ length (walk_items m) = 3%nat.
+Proof. exact ex_api. Qed.
+Print Assumptions C13_example_api.
